@@ -10,6 +10,12 @@ def main(argv):
         print("usage: check <Cnn> [quick|thorough] | check <Cnn> --replay <file>")
         return 3
     prop = argv[0]
+    if prop == "selftest":
+        import subprocess
+        rc1 = subprocess.call([sys.executable, os.path.join(VERIF, "selftest", "ground_tests.py")])
+        rc2 = subprocess.call([sys.executable, os.path.join(VERIF, "selftest", "axioms.py")])
+        print("SELFTEST", "ok" if rc1 == 0 and rc2 == 0 else "FAILED")
+        return 0 if rc1 == 0 and rc2 == 0 else 3
     if "--replay" in argv:
         from harness import replay
         return replay.main(prop, argv[argv.index("--replay") + 1])
